@@ -43,6 +43,27 @@ func langProbes(g *rng.R, tag string) []string {
 			}
 		}
 		out = append(out, string(b))
+		// letters in a random mix of cases, other bytes untouched
+		c := []byte(tag)
+		for i := range c {
+			if (c[i] >= 'a' && c[i] <= 'z' || c[i] >= 'A' && c[i] <= 'Z') && g.Bool() {
+				c[i] ^= 0x20
+			}
+		}
+		out = append(out, string(c))
+		// the same with bit 0x20 toggled on the ASCII punctuation next to the letters (@ ` [ { ] } ^ ~ _ \x7f):
+		// these are different characters, not case variants
+		e := []byte(tag)
+		changed := false
+		for i := range e {
+			if e[i] >= 0x40 && e[i] < 0x80 && !(e[i]|0x20 >= 'a' && e[i]|0x20 <= 'z') {
+				e[i] ^= 0x20
+				changed = true
+			}
+		}
+		if changed {
+			out = append(out, string(e), string(b))
+		}
 	}
 	return out
 }
